@@ -114,6 +114,7 @@ func cmdRun(args []string) {
 	native := fs.Bool("native", false, "replay violations natively")
 	prefix := fs.String("prefix", "", "DFS prefix")
 	stubs := fs.String("stubs", "", "fn=replacement,...")
+	sortFront := fs.Int("sort-front-above", 0, "contract model (front element only) for sort.Slice above this length")
 	swaps := fs.Int("shuffle-swaps", 0, "number of arbitrary swaps modelling rand.Shuffle")
 	fs.Parse(args)
 	var iargs []int
@@ -133,7 +134,7 @@ func cmdRun(args []string) {
 		os.Exit(2)
 	}
 	knownOpen, _ := loadKnown()
-	res := sym.RunJob(p, sym.Job{Pkg: full, Harness: *harness, Args: iargs, Prefix: parseInts(*prefix), Cfg: sym.JobConfig{Stubs: parseStubs(*stubs), ShuffleSwaps: *swaps, KnownOpen: knownOpen, NoMerge: *nomerge, NoIntMode: *noint, MapOrder: *maporder, SampleEvery: 1, MaxSamples: 3}}, *solver, 60000)
+	res := sym.RunJob(p, sym.Job{Pkg: full, Harness: *harness, Args: iargs, Prefix: parseInts(*prefix), Cfg: sym.JobConfig{Stubs: parseStubs(*stubs), ShuffleSwaps: *swaps, SortFrontOnlyAbove: *sortFront, KnownOpen: knownOpen, NoMerge: *nomerge, NoIntMode: *noint, MapOrder: *maporder, SampleEvery: 1, MaxSamples: 3}}, *solver, 60000)
 	res.Functions = nil
 	out, _ := json.MarshalIndent(res, "", " ")
 	fmt.Println(string(out))
